@@ -959,6 +959,22 @@ func (ex *Exec) applyContract(st *State, fc *FuncContract, pc *preparedCall, k f
 		if label == "" {
 			label = fmt.Sprint(i)
 		}
+		if len(rq.Props) > 0 {
+			// a property-tagged precondition is an obligation only of callers serving that property
+			// (its callee's ensures must not depend on it: used for trusted sinks only)
+			var both []string
+			for _, p := range rq.Props {
+				if hasProp(ex.props, p) {
+					both = append(both, p)
+				}
+			}
+			if len(both) == 0 {
+				continue
+			}
+			rq2 := *rq
+			rq2.Props = both
+			rq = &rq2
+		}
 		ex.assertClauseNamed(st, env, fmt.Sprintf("%s#pre@%s[%s]", ex.name, calleeShort, label), rq, pc.call.Pos())
 	}
 	if fc.Iter != nil {
